@@ -123,11 +123,38 @@ def run_node(c):
     return res
 
 
+def probe_foreign_free():
+    """free(addr) of an address that does NOT belong to this allocator's partition (e.g. a hardware bus, another
+    client's bus) must not free one of its live blocks.  Returns the scenarios in which it does."""
+    bad = []
+    for size, pos, off in ((4, 0, 4), (8, 1, 8), (16, 0, 32), (6, 2, 3)):
+        for back in (1, 2, 3):
+            if back >= size - pos or back > off:
+                continue
+            a = eng.ContiguousBlockAllocator(size, pos, off)
+            first = a.alloc(size - pos - back)
+            last = a.alloc(back)                 # starts at relative index size - back
+            foreign = off - back                 # below the partition: relative index -back
+            ops = [['a', size - pos - back, 0], ['a', back, 0], ['f', foreign], ['a', back, 0]]
+            try:
+                a.free(foreign)
+                exc = None
+            except Exception as e:
+                exc = type(e).__name__
+            again = a.alloc(back)
+            if again is not None and again == last:
+                bad.append({'size': size, 'pos': pos, 'off': off, 'ops': ops, 'returned': [first, last, None, again], 'exception': exc,
+                            'why': 'free(%d) -- an address below the partition [%d,%d) -- freed the live block [%d,%d); the next alloc(%d) '
+                                   'returned %d again, overlapping it' % (foreign, off + pos, off + size, last, last + back, back, again)})
+    return bad
+
+
 def main():
     p = json.load(open(sys.argv[1]))
     rc = [run_case(c) for c in p.get('cases', [])]
     out = {'cases': [x[1] for x in rc], 'ops': [x[0] for x in rc],
-           'node': [run_node(c) for c in p.get('node', [])]}
+           'node': [run_node(c) for c in p.get('node', [])],
+           'foreign': probe_foreign_free() if p.get('probe_foreign') else []}
     json.dump(out, open(sys.argv[2], 'w'))
 
 
